@@ -4,7 +4,12 @@
 use crate::util::Rng;
 use serde_json::{json, Map, Value};
 
-const WORDS: [&str; 10] = ["Example", "yes", "1e3", "a: b", "~", "été €", "- x", "null", "Pet store", "0x1F"];
+// plain words, YAML look-alikes, and strings whose last character (of the string, or of a line) is a blank that is
+// not ASCII: NO-BREAK SPACE, EM SPACE, IDEOGRAPHIC SPACE — they are part of the string
+const WORDS: [&str; 16] = [
+    "Example", "yes", "1e3", "a: b", "~", "été €", "- x", "null", "Pet store", "0x1F", "ends with a no-break space\u{a0}", "em space\u{2003}",
+    "ideographic\u{3000}", "first line\u{a0}\nsecond line\u{3000}\nthird", " leading and trailing ", "tab\t",
+];
 
 fn word(rng: &mut Rng) -> Value {
     json!(*rng.pick(&WORDS))
@@ -50,6 +55,10 @@ pub fn gen_base(rng: &mut Rng, rich: bool) -> Value {
     });
     if rich && rng.chance(1, 3) {
         info.insert("x-logo".into(), json!({"url": "https://example.com/logo.png"}));
+    }
+    if rng.chance(1, 3) {
+        // `<<` is an ordinary key in free-form data (YAML 1.2 has no merge keys)
+        info.insert("x-merge-like".into(), json!({"<<": {"inner": 1, "other": "x"}, "kept": true, "list": [{"<<": {"a": 1}}, {"b": 2}]}));
     }
     top.insert("info".into(), Value::Object(info));
     if rng.chance(3, 4) {
